@@ -47,12 +47,15 @@
             printed as indices <<"CH", doc, line, field, value text, setter, tail>>;
             the harness executes it at every validation level and records the result
             class of every call; TraceLex demands that each is an allowed outcome.
-     nest   GFA2 groups nested in each other under removal (C07: "identifiers to ... remove";
+     nest   GFA2 groups nested in each other under removal and under the computing calls
+            (captured path / segments / edges, induced set, conversion of the line and of the Gfa) (C07: "identifiers to ... remove";
             RecursionError and non-termination are named by the property).  The DOCUMENTS are
             built here: kind (O / U) x 1..3 groups a, b, c where each lists the next x the
             last one lists the first (a cycle; one group: it lists itself) or not (a chain:
             deep nesting) x which groups also list a segment (none / the last / all) x an
-            outer set `U d a` depending on the nest or not x three arrival orders (as
+            outer set `U d a` depending on the nest or not x the first group led by an edge
+            between the two segments (none / containment / internal alignment / dovetail; the
+            other groups then start with their segment) x three arrival orders (as
             listed; reversed = every reference is a forward reference; groups rotated and
             the segments last).  On every line of every such document every tail of
             Cat.nest.tails is run (remove by identifier, remove the instance, disconnect,
@@ -194,22 +197,34 @@ AValues(d, j, i, src) ==
   ELSE LET a == CHOOSE b \in ARec(d, j) : TRUE IN IF i <= NPos(a) THEN PosReps(a, i) ELSE <<>>
 HistValue(x) == AValues(x.a, x.w[1], x.w[2], x.w[3])[x.w[4]]
 
-(* nested groups: w = <<kind, n, closed, segments, outer, order>> then <<line, tail>> *)
+(* nested groups: w = <<kind, n, closed, segments, outer, order, lead>> then <<line, tail>> *)
 GNames == << <<"a">>, <<"b">>, <<"c">> >>
 GKinds == << <<"O">>, <<"U">> >>
-GSegs  == << << <<"S">>, <<"1">>, <<"1", "0">>, <<"*">> >>, << <<"S">>, <<"2">>, <<"1", "0">>, <<"*">> >> >>
+GSegs  == << << <<"S">>, <<"1">>, <<"1", "0", "0">>, <<"*">> >>, << <<"S">>, <<"2">>, <<"5", "0">>, <<"*">> >> >>
+\* an edge between the two segments that may LEAD the first group (lead = 1: containment of 2 in 1, 2: internal
+\* alignment, 3: dovetail): only a dovetail gives a captured path a direction, after another first edge the next
+\* item is looked at - which is the next group of the nest
+GEdgeName(lead) == CASE lead = 1 -> <<"c", "1">> [] lead = 2 -> <<"i", "1">> [] lead = 3 -> <<"d", "1">>
+GEdge(lead) ==
+  << <<"E">>, GEdgeName(lead), <<"1", "+">>, <<"2", "+">> >> \o
+  (CASE lead = 1 -> << <<"1", "0">>, <<"6", "0">>, <<"0">>, <<"5", "0", "$">>, <<"5", "0", "M">> >>
+     [] lead = 2 -> << <<"1", "0">>, <<"6", "0">>, <<"5">>, <<"4", "5">>, <<"*">> >>
+     [] lead = 3 -> << <<"9", "0">>, <<"1", "0", "0", "$">>, <<"0">>, <<"1", "0">>, <<"1", "0", "M">> >>)
 GItem(kind, name) == IF kind = 1 THEN name \o <<"+">> ELSE name
-GLine(kind, n, closed, sm, i) ==
+GLine(kind, n, closed, sm, lead, i) ==
   LET nxt == IF i < n THEN <<GItem(kind, GNames[i + 1])>>
              ELSE IF closed = 1 THEN <<GItem(kind, GNames[1])>> ELSE <<>>
       sg  == IF sm = 2 \/ (sm = 1 /\ i = n)
-             THEN <<GItem(kind, IF i % 2 = 1 THEN <<"1">> ELSE <<"2">>)>> ELSE <<>> IN
-  <<GKinds[kind], GNames[i], Join(nxt \o sg, " ")>>
+             THEN <<GItem(kind, IF i % 2 = 1 THEN <<"1">> ELSE <<"2">>)>> ELSE <<>>
+      items == IF lead = 0 THEN nxt \o sg
+               ELSE IF i = 1 THEN <<GItem(kind, GEdgeName(lead))>> \o nxt \o sg
+               ELSE sg \o nxt IN       \* behind a leading edge the other groups start with their segment
+  <<GKinds[kind], GNames[i], Join(items, " ")>>
 Rot(sq) == IF Len(sq) <= 1 THEN sq ELSE Tail(sq) \o <<Head(sq)>>
 NestDoc(w) ==
-  LET kind == w[1]  n == w[2]  closed == w[3]  sm == w[4]  outer == w[5]  ord == w[6]
-      segs == IF sm = 0 THEN <<>> ELSE GSegs
-      grps == [i \in 1..n |-> GLine(kind, n, closed, sm, i)]
+  LET kind == w[1]  n == w[2]  closed == w[3]  sm == w[4]  outer == w[5]  ord == w[6]  lead == w[7]
+      segs == IF sm = 0 THEN <<>> ELSE IF lead = 0 THEN GSegs ELSE GSegs \o <<GEdge(lead)>>
+      grps == [i \in 1..n |-> GLine(kind, n, closed, sm, lead, i)]
       out  == IF outer = 1 THEN << << <<"U">>, <<"d">>, <<"a">> >> >> ELSE <<>> IN
   CASE ord = 1 -> segs \o grps \o out
     [] ord = 2 -> Reverse(segs \o grps \o out)
@@ -234,8 +249,8 @@ LongSuf(x) ==
 (* Law of the specification itself, checked by TLC at every run: the number of overlaps of
    a GFA1 path decides independently of what the overlaps are.  For n segments and m overlaps
    that are all `*`, all CIGARs, or mixed: the single `*` is accepted; m = n-1 is accepted
-   (CIGARs) or left open (`*` elements are disputed syntax); m = n is left open (circular
-   paths: gfapy only); every other m is rejected.                                        *)
+   (CIGARs) or left open (`*` elements are disputed syntax); m = n likewise (a circular
+   path); every other m is rejected.                                                     *)
 Rep(e, m) == Join([k \in 1..m |-> e], ",")
 PLine(n, ov) == << <<"P">>, <<"p">>, Rep(<<"A", "+">>, n), ov >>
 Mixed(m) == Join([k \in 1..m |-> IF k = 2 THEN <<"1", "M">> ELSE <<"*">>], ",")
@@ -245,7 +260,7 @@ ASSUME PathCountLaw ==
         cigs  == LineVerdict("gfa1", PLine(n, Rep(<<"1", "M">>, m)), FALSE)
         mixed == LineVerdict("gfa1", PLine(n, Mixed(m)), FALSE) IN
     /\ stars = (IF m = 1 THEN "acc" ELSE IF m \in {n - 1, n} THEN "either" ELSE "rej")
-    /\ cigs = (IF m = n - 1 THEN "acc" ELSE IF m = n THEN "either" ELSE "rej")
+    /\ cigs = (IF m = n - 1 \/ m = n THEN "acc" ELSE "rej")
     /\ m >= 2 => mixed = (IF m \in {n - 1, n} THEN "either" ELSE "rej")
 
 St(lay, a, w) == [lay |-> lay, a |-> a, w |-> w]
@@ -285,18 +300,22 @@ Init ==
   \/ /\ "nest" \in Layers
      /\ \E kind \in {1, 2}, n \in 1..3, closed \in {0, 1}, sm \in 0..2, outer \in {0, 1}, ord \in 1..3 :
           /\ (IF closed = 0 THEN sm >= 1 ELSE TRUE)      \* the last group of a chain lists a segment
-          /\ c = St("nest", 1, <<kind, n, closed, sm, outer, ord>>)
+          /\ \E lead \in 0..3 : /\ (IF lead > 0 THEN sm = 1 /\ ord <= 2 ELSE TRUE)   \* an edge needs its segments
+                                /\ c = St("nest", 1, <<kind, n, closed, sm, outer, ord, lead>>)
   \/ /\ "queue" \in Layers
      /\ \E q \in DOMAIN Que.q, b \in DOMAIN Que.bad, d \in DOMAIN Que.dec, ar \in 1..3 :
           c = St("queue", 1, <<q, b, d, ar>>)
   \/ /\ "long" \in Layers
      /\ \E a \in DOMAIN VLines : \E p \in 1..Len(VLines[a].f), r \in DOMAIN Longs : c = St("long", a, <<p, r>>)
   \/ /\ "hist" \in Layers
-     /\ \E d \in DOMAIN Api.docs :
+     /\ \E d \in {x \in DOMAIN Api.docs : Api.docs[x].assign = 1} :
         \E j \in DOMAIN Api.docs[d].lines :
         \E i \in 1..ANPos(d, j), src \in {1, 2} :
         \E v \in DOMAIN AValues(d, j, i, src), st \in 1..Api.nsetters, tl \in DOMAIN Api.tails :
           c = St("hist", d, <<j, i, src, v, st, tl>>)
+  \/ /\ "hist" \in Layers          \* the same documents without assignment: tails on the identifier (Api.tails0)
+     /\ \E d \in DOMAIN Api.docs : \E j \in DOMAIN Api.docs[d].lines, tl \in DOMAIN Api.tails0 :
+          c = St("hist", d, <<j, 0, 0, 0, 0, tl>>)
 
 Next ==
   \/ /\ c.lay = "enum" /\ Len(c.w) < Alph[c.a].n
@@ -311,8 +330,10 @@ Next ==
      /\ Len(c.w) - NPos(c.a) < Recs[c.a].ntag
      /\ \E t \in DOMAIN Recs[c.a].tags : c' = [c EXCEPT !.w = Append(@, t)]
 
-  \/ /\ c.lay = "nest" /\ Len(c.w) = 6        \* a document: choose the line and the tail
-     /\ \E j \in DOMAIN NestDoc(c.w), tl \in DOMAIN Nest.tails : c' = [c EXCEPT !.w = @ \o <<j, tl>>]
+  \/ /\ c.lay = "nest" /\ Len(c.w) = 7        \* a document: choose the line and the tail
+     /\ \E j \in DOMAIN NestDoc(c.w), tl \in DOMAIN Nest.tails :
+          /\ (IF c.w[7] > 0 THEN tl \in Rng(Nest.leadtails) ELSE TRUE)   \* edge-led nests: removal by identifier, computing calls
+          /\ c' = [c EXCEPT !.w = @ \o <<j, tl>>]
   \/ /\ c.lay = "xdoc" /\ Len(c.w) < NSlots(c.a)
      /\ \E k \in DOMAIN Tmpl[c.a].slots[Len(c.w) + 1].alts :
           /\ (IF k = 1 \/ Tmpl[c.a].slots[Len(c.w) + 1].ctx = 1 THEN TRUE
@@ -344,7 +365,8 @@ Emit ==
     [] c.lay = "hdr" -> PrintT(<<"CT", "any", Enc(HdrText(c))>>)
     [] c.lay = "queue" -> PrintT(<<"CT", "any", Enc(QueText(c))>>)
     [] c.lay = "long" -> PrintT(<<"CX", VLines[c.a].ver, Enc(LongPre(c)), Enc(<<Longs[c.w[2]].sym>>), Longs[c.w[2]].n, Enc(LongSuf(c))>>)
-    [] c.lay = "nest" -> IF Len(c.w) = 6 THEN PrintT(<<"CG", EncD(NestDoc(c.w)), 0, 0>>)
-                         ELSE PrintT(<<"CG", EncD(NestDoc(c.w)), c.w[7], c.w[8]>>)
-    [] c.lay = "hist" -> PrintT(<<"CH", c.a, c.w[1], c.w[2], Enc(HistValue(c)), c.w[5], c.w[6]>>)
+    [] c.lay = "nest" -> IF Len(c.w) = 7 THEN PrintT(<<"CG", EncD(NestDoc(c.w)), 0, 0>>)
+                         ELSE PrintT(<<"CG", EncD(NestDoc(c.w)), c.w[8], c.w[9]>>)
+    [] c.lay = "hist" -> IF c.w[2] = 0 THEN PrintT(<<"CH", c.a, c.w[1], 0, <<>>, 0, c.w[6]>>)
+                         ELSE PrintT(<<"CH", c.a, c.w[1], c.w[2], Enc(HistValue(c)), c.w[5], c.w[6]>>)
 =============================================================================
